@@ -1,7 +1,9 @@
 """Per-property check pipelines (see DESIGN.md section 5)."""
+import concurrent.futures
 import json
 import os
 
+import configs
 import vlib
 from vlib import Machinery
 
@@ -43,6 +45,151 @@ def validate_trace(run, module, cfg, trace_path, nlines, dfs=False):
         raise Machinery("trace validation %s consumed %s of %d lines\n%s" % (module, consumed, nlines, r.raw[-3000:]))
     run.extra.setdefault("val", []).append({"module": module, "lines": nlines, "states": r.distinct, "wall_s": r.wall})
     return r.json_prints("REJECT")
+
+
+def split_trace(path, nshards, outdir):
+    """Split an ndjson log at Reset boundaries into about nshards files; returns [(path, nlines)]."""
+    shards, cur, curf, n = [], None, None, 0
+    total = sum(1 for _ in open(path))
+    per = max(1, total // nshards)
+    idx = 0
+    with open(path) as f:
+        for line in f:
+            if curf is None or (n >= per and line.startswith('{"cfg"') or (n >= per and '"ev":"Reset"' in line[:400])):
+                if curf:
+                    curf.close()
+                    shards.append((cur, n))
+                idx += 1
+                cur = os.path.join(outdir, "shard%d.ndjson" % idx)
+                curf = open(cur, "w")
+                n = 0
+            curf.write(line)
+            n += 1
+    if curf:
+        curf.close()
+        shards.append((cur, n))
+    return shards
+
+
+def validate_sharded(run, module, cfg, trace_path, max_shards=12, per_shard=40000):
+    """Trace validation of a large log: shards validated by concurrent TLC processes."""
+    total = sum(1 for _ in open(trace_path))
+    nsh = max(1, min(max_shards, total // per_shard + 1))
+    d = os.path.join(run.scratch, "shards%d" % len(run.tlc_runs))
+    os.makedirs(d, exist_ok=True)
+    shards = split_trace(trace_path, nsh, d) if nsh > 1 else [(trace_path, total)]
+    rejects = []
+
+    def one(sh):
+        path, n = sh
+        r = run.tlc(module, cfg, workers=1, env={"VERIF_TRACE": path}, label="val:%s[%d lines]" % (module, n),
+                    jvm="-Xmx3g -XX:ParallelGCThreads=2")
+        if r.error or not r.ok:
+            raise Machinery("trace validation %s failed to run: %s %s\n%s" % (module, r.error, r.violation, r.raw[-3000:]))
+        consumed = [int(x) for x in r.prints.get("CONSUMED", [])]
+        if not consumed or max(consumed) != n:
+            raise Machinery("trace validation %s consumed %s of %d lines\n%s" % (module, consumed, n, r.raw[-3000:]))
+        return r.json_prints("REJECT")
+
+    with concurrent.futures.ThreadPoolExecutor(max_workers=min(len(shards), 12)) as ex:
+        for rj in ex.map(one, shards):
+            rejects += rj
+    run.extra.setdefault("val", []).append({"module": module, "lines": total, "shards": len(shards)})
+    return rejects, total
+
+
+# ---------------------------------------------------------------- blocking wrappers (C02 C10-C13 C19)
+def wrapper_pipeline(run, prop, names, negs, classes, replay_cap=None):
+    """mc (+ graph emission) of the implementation-shaped models, negs, replay of every transition on the
+    real limiters, validation of the recorded executions against the contract WrapperTrace.
+    Rejections whose class is in `classes` are violations of `prop`."""
+    indir = os.path.join(run.scratch, "in")
+    os.makedirs(indir, exist_ok=True)
+    kinds = set()
+    th = run.tier == "thorough"
+    for name in names:
+        module, consts = configs.WRAPPER[name]
+        text = configs.cfg_text(consts, configs.invs(module), configs.props_of(module), emit=True)
+        r = run.tlc(module, name + ".cfg", cfg_text=text, label="mc+gen:%s" % name, coverage=False)
+        if r.error:
+            raise Machinery("TLC %s: %s\n%s" % (r.label, r.error, r.raw[-3000:]))
+        if not r.ok:
+            raise Machinery("TLC %s reports %s on the implementation-shaped model (no real-code trace yet):\n%s" % (r.label, r.violation, r.raw[-5000:]))
+        run.states += r.distinct
+        run.transitions += r.generated
+        prefix = "blocking" if module == "Blocking" else "queue"
+        kinds.add(prefix)
+        n = emit_graph(run, r, os.path.join(indir, "%s_%s.ndjson" % (prefix, name)))
+        if n != r.generated - 1:
+            raise Machinery("TLC %s printed %d transitions but generated %d states" % (r.label, n, r.generated))
+    for name in negs:
+        module, consts, inv = configs.NEG[name]
+        text = configs.cfg_text(consts, [inv], [], emit=False)
+        r = run.neg(module, "neg_" + name + ".cfg", cfg_text=text, label="neg:%s" % name)
+    all_rejects = []
+    for prefix in sorted(kinds):
+        test = "^TestBlockingReplay$" if prefix == "blocking" else "^TestQueueReplay$"
+        out, _ = run.go(test, env={"VERIF_IN": indir}, timeout=1500)
+        reps = json.load(open(os.path.join(out, prefix + "_replay.json")))
+        steps = conf = 0
+        for rep in reps:
+            run.extra.setdefault("replay", []).append({k: rep[k] for k in rep if k != "first_divergences"})
+            steps += rep["steps_executed"]
+            conf += rep["steps_conforming"]
+            run.traces += rep["scenarios"]
+            if rep.get("first_divergences"):
+                run.extra.setdefault("divergences", []).extend(rep["first_divergences"][:3])
+        run.extra["step_conformance"] = run.extra.get("step_conformance", [])
+        run.extra["step_conformance"].append({"stack": prefix, "steps": steps, "conforming": conf})
+        tp = os.path.join(out, prefix + "_trace.ndjson")
+        rejects, total = validate_sharded(run, "WrapperTrace", "Wrapper_trace.cfg", tp)
+        run.events += total
+        # samples + violations
+        if total:
+            with open(tp) as f:
+                head = [json.loads(next(f)) for _ in range(min(4, total))]
+            run.sample({"recorded_trace_excerpt": head})
+        if rejects:
+            rows = None
+            seen = set()
+            for rj in rejects:
+                key = (rj["trace"], rj["class"], rj.get("p"))
+                if key in seen:
+                    continue
+                seen.add(key)
+                rj["_stack"] = prefix
+                all_rejects.append(rj)
+                if rj["class"] in classes:
+                    if rows is None:
+                        rows = vlib.read_ndjson(tp)
+                    tr = [x for x in rows if x["trace"] == rj["trace"] and (x["ev"] == "Reset" or x["i"] <= rj["i"])]
+                    cfg = tr[0]["cfg"] if tr else {}
+                    sig = {"class": rj["class"], "kind": cfg.get("kind"), "known": rj.get("known", "")}
+                    run.report("%s limiter: recorded execution rejected by the contract (%s: %s, process %s) after step %s" % (
+                        cfg.get("kind"), rj["class"], rj["why"], rj.get("p"), json.dumps(rj["step"])),
+                        {"config": cfg, "schedule": [x.get("step") for x in tr[1:]], "trace": tr, "reject": rj,
+                         "rerun": "VERIF_SEED=%d bin/check %s --tier %s" % (run.seed, prop, run.tier)}, sig)
+        if steps and conf * 2 < steps and not run.violations:
+            raise Machinery("dead driver: only %d of %d replayed steps followed the model for %s" % (conf, steps, prefix))
+    other = {}
+    for rj in all_rejects:
+        if rj["class"] not in classes:
+            other[rj["class"]] = other.get(rj["class"], 0) + 1
+    if other:
+        run.extra["rejections_of_other_classes"] = other
+    run.extra["rejection_classes_checked"] = sorted(classes)
+    run.exhaustive = True
+    run.assumptions += [
+        "exhaustive within the stated constants only (2-4 processes, limit 1-2, backlog <= 3, a few ticks)",
+        "schedule points exist only at the gates (delegate Acquire entry/exit, delegate completion exit, queue.afterPush, block.childStart); each gate-to-gate segment runs alone",
+        "virtual clock of testing/synctest: timers are exact and fire as soon as they are due",
+    ]
+
+
+def c10(run):
+    th = run.tier == "thorough"
+    names = ["b3", "b3f", "d2", "q2", "q3s"] + (["b3p", "b3l2", "d3", "d3f", "q3", "q3l", "q3n", "b4", "q4", "q4t"] if th else [])
+    wrapper_pipeline(run, "C10", names, ["b3-asdelivered-lostwake", "b3f-asdelivered-lostwake", "q3-asdelivered-lostwake", "q3-unbuffered-lostwake"], {"lostwake"})
 
 
 # ------------------------------------------------------------------------------ C03
@@ -106,4 +253,5 @@ def c03(run):
 
 CHECKS = {
     "C03": c03,
+    "C10": c10,
 }
